@@ -7,8 +7,8 @@
   target, exactly multiplier × ORIGINAL value of the decomposed resource — linearity, for every commutative-semiring
   interpretation; the expanded dictionary satisfies the PATH-SUM recurrence W(r,b) = w(r,b) + Σ_t w(r,t)·W(t,b) with only base
   resources as targets (C15_expansion_is_path_sum, unconditional: Kahn's algorithm as modelled is proved to return a valid order).
-  Not proved: that the cyclic dictionaries are exactly those for which `aggOrder` returns none (completeness of the cycle
-  detection; exercised exhaustively on 3|4 names by the oracle and the correspondence).
+  Every cyclic dictionary is rejected (C15_cyclic_dictionary_rejected).  Not proved: the converse (that `aggOrder` returns none
+  ONLY for cyclic dictionaries, i.e. Kahn's algorithm never gets stuck on an acyclic graph); exercised exhaustively on 3|4 names.
 -/
 import BartiqModel.Aggregate
 import BartiqProofs.AggLemmas
@@ -23,6 +23,13 @@ theorem C15_cycle_rejected (d : AggDict) (remove : Bool) (c : CRoutine) (h : agg
   unfold addAggregatedResources expandAggregation
   rw [h]
   exact ⟨_, rfl⟩
+
+/-- **every cyclic dictionary is rejected**: if some decomposed resource is, through any chain of nested entries, decomposed
+    into itself, the call ends with an error and no result (completeness of the cycle detection: from the correctness of the model
+    of graphlib's static_order — along every registration the position in a returned order strictly increases) -/
+theorem C15_cyclic_dictionary_rejected (d : AggDict) (remove : Bool) (c : CRoutine) (r : String) (h : DecomposesInto d r r) :
+    ∃ m, addAggregatedResources d remove c = .error (.value m) :=
+  C15_cycle_rejected d remove c (aggOrder_none_of_cycle d r h)
 
 /-- and only a cyclic dictionary is: otherwise a result is returned -/
 theorem C15_acyclic_accepted (d : AggDict) (remove : Bool) (c : CRoutine) (order : List String) (h : aggOrder d = some order) :
